@@ -1,6 +1,6 @@
 // C10 — section layout (CodeHolder::flatten / code_size), flattened copy (copy_flattened_data), ordered insertion (new_section).
 // Pre-states are built directly: 4 sections in `_sections_by_order` sequence (flatten and the copy only look at that sequence),
-// each with a symbolic power-of-two alignment 2^0..2^16 (text: also the built-in 0), a symbolic buffer size 0..16 with symbolic
+// each with a symbolic power-of-two alignment 2^0..2^16 (text: also the built-in 0), a symbolic buffer size with symbolic
 // bytes and a full 64-bit symbolic virtual size, so every overflow path of the offset arithmetic is inside the query.
 #include "ch_env.h"
 using namespace asmjit;
@@ -9,27 +9,24 @@ using namespace chenv;
 struct Pre { uint64_t virt, real, off; uint32_t al, bsize; };
 static Pre pre[4];
 
+template<uint32_t BS>
 static void symbolic_sections(bool symbolic_offsets) {
   for (uint32_t i = 0; i < 4; i++) {
     Section* s = sec(i);
     uint32_t k = nondet_u8() & 31; if (k > 16) k -= 16;
     uint32_t al = 1u << k;
     if (i == 0 && nondet_bool()) al = 0;  // the built-in .text has alignment 0 unless the user set one
-    uint32_t bsize = nondet_u8() % 17;
+    uint32_t bsize = nondet_u8() % (BS + 1);
     uint64_t virt = nondet_u64();
     s->_alignment = al; s->_virtual_size = virt; s->_buffer._size = bsize;
     if (symbolic_offsets) s->_offset = nondet_u64();
-    for (uint32_t j = 0; j < 16; j++) sbuf[i][j] = nondet_u8();
+    for (uint32_t j = 0; j < BS; j++) sbuf[i][j] = nondet_u8();
     pre[i].al = al ? al : 1; pre[i].bsize = bsize; pre[i].virt = virt; pre[i].real = virt > bsize ? virt : bsize; pre[i].off = s->_offset;
   }
 }
 
-static uint8_t img[8 + 96 + 8], img_before[8 + 96 + 8];
-
-HARNESS h_flatten_copy() {
-  CodeHolder* c = make_holder(Arch::kX64, 4);
-  symbolic_sections(false);
-
+// Runs flatten() and checks its contract; returns true when it succeeded.
+static bool flatten_checked(CodeHolder* c) {
   // Reference: does the layout fit into 64 bits (exact arithmetic, first overflow is final)?
   bool fits = true; uint64_t run = 0;
   for (uint32_t i = 0; i < 4; i++) {
@@ -48,8 +45,7 @@ HARNESS h_flatten_copy() {
     V_ASSERT(err == Error::kTooLarge, "flatten overflow is reported as kTooLarge");
     for (uint32_t i = 0; i < 4; i++)
       V_ASSERT(sec(i)->_offset == pre[i].off && sec(i)->_virtual_size == pre[i].virt, "failed flatten leaves offsets and virtual sizes unchanged");
-    V_WITNESS("flatten-overflow");
-    return;
+    return false;
   }
 
   uint64_t end_prev = 0;
@@ -70,11 +66,25 @@ HARNESS h_flatten_copy() {
   }
   V_ASSERT(end_prev == run, "layout is the tightest one");
   V_ASSERT(uint64_t(c->code_size()) == end_prev, "code_size is the end of the last section");
-  V_WITNESS("flatten-ok");
+  return true;
+}
 
-  // ---- copy_flattened_data into a guarded destination of symbolic size 0..96
+HARNESS h_flatten() {
+  CodeHolder* c = make_holder(Arch::kX64, 4);
+  symbolic_sections<16>(false);
+  if (flatten_checked(c)) V_WITNESS("flatten-ok"); else V_WITNESS("flatten-overflow");
+}
+
+// ---- copy_flattened_data into a guarded destination of symbolic size 0..DS, from the state flatten() leaves
+template<uint32_t BS, uint32_t DS>
+static void flatten_copy() {
+  static uint8_t img[8 + DS + 8], img_before[8 + DS + 8];
+  CodeHolder* c = make_holder(Arch::kX64, 4);
+  symbolic_sections<BS>(false);
+  if (!flatten_checked(c)) return;
+
   for (uint32_t j = 0; j < sizeof(img); j++) { img[j] = nondet_u8(); img_before[j] = img[j]; }
-  size_t dst_size = nondet_u8() % 97;
+  size_t dst_size = nondet_u8() % (DS + 1);
   uint32_t flags = nondet_u32();
   bool pad_s = flags & 1, pad_t = flags & 2;
   uint8_t* dst = img + 8;
@@ -96,7 +106,7 @@ HARNESS h_flatten_copy() {
     if (pad_s && s->_virtual_size > pre[i].bsize) { uint64_t v = s->_virtual_size; uint64_t lim = dst_size - s->_offset; e = s->_offset + (v < lim ? v : lim); }
     if (e > end) end = e;
   }
-  for (uint32_t j = 0; j < 96; j++) {
+  for (uint32_t j = 0; j < DS; j++) {
     if (j >= dst_size) continue;
     uint8_t expect = img_before[8 + j]; bool covered = false;
     for (uint32_t i = 0; i < 4; i++) {
@@ -109,14 +119,18 @@ HARNESS h_flatten_copy() {
   }
   V_WITNESS("copy-ok");
 }
+HARNESS h_flatten_copy() { flatten_copy<8, 32>(); }
+HARNESS h_flatten_copy_big() { flatten_copy<16, 64>(); }
 
 // copy_flattened_data from an arbitrary section table (offsets, sizes unconstrained: overlapping, huge, without offset):
 // never writes outside the destination, refuses iff some buffer does not fit.
-HARNESS h_copy_arbitrary() {
+template<uint32_t BS, uint32_t DS>
+static void copy_arbitrary() {
+  static uint8_t img[8 + DS + 8], img_before[8 + DS + 8];
   CodeHolder* c = make_holder(Arch::kX64, 4);
-  symbolic_sections(true);
+  symbolic_sections<BS>(true);
   for (uint32_t j = 0; j < sizeof(img); j++) { img[j] = nondet_u8(); img_before[j] = img[j]; }
-  size_t dst_size = nondet_u8() % 97;
+  size_t dst_size = nondet_u8() % (DS + 1);
   uint32_t flags = nondet_u32();
   bool room = true;
   for (uint32_t i = 0; i < 4; i++)
@@ -128,7 +142,7 @@ HARNESS h_copy_arbitrary() {
     if (j < 8 || j >= 8 + dst_size) V_ASSERT(img[j] == img_before[j], "arbitrary table: nothing written outside the destination");
   if (cerr == Error::kOk) {
     // the last section in order wins where buffers overlap
-    for (uint32_t j = 0; j < 96; j++) {
+    for (uint32_t j = 0; j < DS; j++) {
       uint64_t o = pre[3].off;
       if (j < dst_size && j >= o && j - o < pre[3].bsize) V_ASSERT(img[8 + j] == sbuf[3][j - o], "arbitrary table: bytes of the last section in order are in the image");
     }
@@ -136,61 +150,5 @@ HARNESS h_copy_arbitrary() {
   }
   else V_WITNESS("copy-arbitrary-refused");
 }
+HARNESS h_copy_arbitrary() { copy_arbitrary<8, 32>(); }
 
-// new_section: ordered insertion into an arbitrary sorted table of 1..3 sections.
-static char sname[40];
-alignas(16) static Section arena_sections[2];
-HARNESS h_new_section() {
-  uint32_t n = 1 + nondet_u8() % 3;
-  CodeHolder* c = make_holder(Arch::kX64, n);
-  memset(arena_sections, 0xA5, sizeof(arena_sections)); set_arena(arena_sections, sizeof(arena_sections));
-  // by-order sequence: a permutation with .text first; orders symbolic, constrained to be sorted by (order, id)
-  if (n == 3 && nondet_bool()) { by_order[1] = sec(2); by_order[2] = sec(1); }
-  for (uint32_t i = 1; i < n; i++) sec(i)->_order = int32_t(nondet_u32());
-  for (uint32_t i = 0; i + 1 < n; i++) {
-    Section* a = by_order[i]; Section* b = by_order[i + 1];
-    V_ASSUME(a->_order < b->_order || (a->_order == b->_order && a->_section_id < b->_section_id));
-  }
-  Section* old_seq[3]; for (uint32_t i = 0; i < 3; i++) old_seq[i] = by_order[i];
-
-  uint32_t alignment = nondet_u32(); int32_t order = int32_t(nondet_u32()); uint32_t flags = nondet_u32() & 0xFFFFu;
-  memset(sname, 0, sizeof(sname));
-  for (uint32_t i = 0; i < 3; i++) sname[i] = char(nondet_u8());
-  size_t name_size = nondet_bool() ? SIZE_MAX : size_t(nondet_u8() % 40);
-  size_t eff = name_size;
-  if (name_size == SIZE_MAX) { eff = 0; while (eff < 3 && sname[eff]) eff++; }
-
-  Section* out = reinterpret_cast<Section*>(sname);  // must be overwritten
-  Error err = c->new_section(Out<Section*>(out), sname, name_size, SectionFlags(flags), alignment, order);
-  verif_observe(uint64_t(err));
-  bool pow2 = (alignment & (alignment - 1)) == 0;
-  if (!pow2 || eff > Globals::kMaxSectionNameSize) {
-    V_ASSERT(err != Error::kOk && out == nullptr, "new_section refuses a non-power-of-two alignment or an over-long name");
-    V_ASSERT(err == (pow2 ? Error::kInvalidSectionName : Error::kInvalidArgument), "new_section error code");
-    V_ASSERT(c->_sections._size == n && c->_sections_by_order._size == n, "refused new_section leaves the tables unchanged");
-    for (uint32_t i = 0; i < n; i++) V_ASSERT(by_order[i] == old_seq[i], "refused new_section leaves the order unchanged");
-    V_WITNESS("new-section-refused");
-    return;
-  }
-  V_ASSERT(err == Error::kOk && out != nullptr, "new_section accepts valid arguments");
-  V_ASSERT(c->_sections._size == n + 1 && by_id[n] == out && out->_section_id == n, "new section appended with the next id");
-  V_ASSERT(out->_alignment == (alignment ? alignment : 1u) && out->_order == order && uint32_t(out->flags()) == flags, "new section carries alignment, order and flags");
-  V_ASSERT(out->_offset == Globals::kNoSectionOffset && out->_virtual_size == 0, "new section has no offset and no virtual size");
-  V_ASSERT(out->_buffer._data == nullptr && out->_buffer._size == 0 && out->_buffer._capacity == 0, "new section has an empty buffer");
-  for (uint32_t i = 0; i < 3; i++) if (i < eff) V_ASSERT(out->_name.str[i] == sname[i], "new section name copied");
-  V_ASSERT(c->_sections_by_order._size == n + 1, "by-order table grew by one");
-  uint32_t k = 0; bool seen = false;
-  for (uint32_t i = 0; i < 4; i++) {
-    if (i > n) continue;
-    Section* s = by_order[i];
-    if (s == out) { V_ASSERT(!seen, "new section appears once in the by-order table"); seen = true; }
-    else { V_ASSERT(k < n && s == old_seq[k], "existing sections keep their relative order"); k++; }
-    if (i + 1 <= n) {
-      Section* t = by_order[i + 1];
-      V_ASSERT(s->_order < t->_order || (s->_order == t->_order && s->_section_id < t->_section_id), "by-order table sorted by (order, id)");
-    }
-  }
-  V_ASSERT(seen && k == n, "by-order table is the old sequence plus the new section");
-  V_ASSERT(by_order[0] == sec(0), "the built-in text section stays first");
-  V_WITNESS("new-section-ok");
-}
